@@ -72,16 +72,30 @@ func floatOf(v Val) (float64, bool) {
 }
 
 // refNumeric: the reference rendering of a numeric directive (ok=false: no exact reference).
-func refNumeric(v Val, d Directive) (string, bool) {
+// conv supplies the integer of a float whose conversion the language does not define (NaN, infinities,
+// magnitudes outside int64): the integer the implementation itself shows for the value under plain %d.
+// The reference is then Go's fmt applied to THAT integer: sign, prefix, zero and space padding, width
+// and precision are demanded exactly as for every other integer (fmt does not count the '#' prefix in
+// a zero-padded width: "%0#30x" of MinInt64 is "-0x" + 29 digits, 32 wide).
+func refNumeric(v Val, d Directive, conv func() (int64, bool)) (string, bool) {
+	intOfV := func() (int64, bool) {
+		if n, ok := intOf(v); ok {
+			return n, true
+		}
+		if v.K == "float" && conv != nil {
+			return conv()
+		}
+		return 0, false
+	}
 	switch d.Letter {
 	case 'd', 'x', 'X', 'o', 'b':
-		n, ok := intOf(v)
+		n, ok := intOfV()
 		if !ok {
 			return "", false
 		}
 		return fmt.Sprintf(d.goDirective(d.Letter), n), true
 	case 'B':
-		n, ok := intOf(v)
+		n, ok := intOfV()
 		if !ok {
 			return "", false
 		}
@@ -261,7 +275,18 @@ func checkScalar(v Val, ds string, o Obs, render func(ds string) Obs) []finding 
 	out := o.Text
 	// numeric
 	if numericKind(v) {
-		if want, ok := refNumeric(v, d); ok {
+		conv := func() (int64, bool) {
+			if render == nil {
+				return 0, false
+			}
+			o2 := render("%d")
+			if o2.Err != "" {
+				return 0, false
+			}
+			n, err := strconv.ParseInt(o2.Text, 10, 64)
+			return n, err == nil
+		}
+		if want, ok := refNumeric(v, d, conv); ok {
 			if out != want {
 				add("numeric", fmt.Sprintf("%s under %q renders %q, the reference rendering (fmt %q) is %q", v, ds, out, d.goDirective(d.Letter), want),
 					"numeric-"+string(d.Letter), numericTag(v, d, out, want))
@@ -358,6 +383,75 @@ func renderPx(v px.Value, ctx px.FormatContext) (o Obs) {
 	return Obs{Text: px.ToString2(v, ctx)}
 }
 
+// checkEntries: a Hash under %a. The text must be what the array of the hash's entries renders to:
+// delimiters and separator of the format the context holds for that array, and each entry rendered
+// (as the array [key, value]) under the element formats - an entry is not a container of its own
+// (arraytype.go:756), so it never takes the context's own map.
+func checkEntries(v Val, hv *types.Hash, ctx px.FormatContext, o Obs, depth int, fs *[]finding) {
+	add := func(clause, what string, tags ...string) {
+		*fs = append(*fs, finding{clause, what, tags})
+	}
+	var entries []px.Value
+	hv.EachPair(func(k, e px.Value) { entries = append(entries, types.WrapValues([]px.Value{k, e})) })
+	av := types.WrapValues(entries)
+	f := px.GetFormat(ctx.FormatMap(), av.PType())
+	c := f.FormatChar()
+	if !inDocSet("Array", c) {
+		if o.Err != "unsupported" || o.Letter != c || o.Type != "Array" {
+			add("unsupported-iff", fmt.Sprintf("%s as the array of its entries: %q is outside the documented set of Array but it formats as %s", v, c, o), "unsupported-Array-"+string(c))
+		}
+		return
+	}
+	cf := f.ContainerFormats()
+	if cf == nil {
+		cf = types.DefaultContainerFormats
+	}
+	ind := ctx.Indentation()
+	ind = ind.Indenting(f.IsAlt() || ind.IsIndenting())
+	childInd := ind.Increase(f.IsAlt()).Subsequent()
+	cc := px.NewFormatContext2(childInd, cf, ctx.Properties())
+	texts := make([]string, len(entries))
+	childErr := false
+	for i, e := range entries {
+		co := renderPx(e, cc)
+		if depth < 6 {
+			checkTree(v.Es[i], e, cc, co, depth+1, fs)
+		}
+		if co.Err != "" {
+			childErr = true
+		}
+		texts[i] = co.Text
+	}
+	if childErr {
+		if o.Err == "" {
+			add("container", fmt.Sprintf("%s (hash under %%a) renders as %s although an entry cannot be formatted", v, o), "container-child-error")
+		}
+		return
+	}
+	if o.Err != "" {
+		add("unsupported-iff", fmt.Sprintf("%s (hash under %%a): %s although every entry formats", v, o), "unsupported-Hash-a")
+		return
+	}
+	ld := f.LeftDelimiter()
+	if ld == 0 {
+		ld = '['
+	}
+	dp, ok := delimPairs[ld]
+	if !ok {
+		add("container", fmt.Sprintf("unknown delimiter %q", ld), "container-delimiter")
+		return
+	}
+	flat := dp[0] + strings.Join(texts, f.Separator(",")+" ") + dp[1]
+	if !f.IsAlt() && !ctx.Indentation().IsIndenting() {
+		if o.Text != flat {
+			add("container", fmt.Sprintf("%s (hash under %%a) renders %q, expected %q (the array of its entries: delimiters %q %q, entries %q)", v, o.Text, flat, dp[0], dp[1], texts),
+				"container-flat", "container-hash-a")
+		}
+	} else if stripWS(o.Text) != stripWS(flat) {
+		add("container", fmt.Sprintf("%s (hash under %%a) renders %q, which is not %q up to layout white space", v, o.Text, flat), "container-indented", "container-hash-a")
+	}
+}
+
 // checkTree evaluates the container clause on value v rendered as `out` under ctx, recursively:
 // the text must be left delimiter, the elements' own renderings (under the context the container
 // format supplies) joined by the separator, right delimiter; exactly for flat formats, modulo
@@ -401,7 +495,15 @@ func checkTree(v Val, pv px.Value, ctx px.FormatContext, o Obs, depth int, fs *[
 		return
 	}
 	if v.K == "hash" && c == 'a' {
-		return // rendered as the array of its entries under the Array format: tied by the model only
+		// rendered as the array of its entries, each entry the array [key, value] (hashtype.go:1271, :593):
+		// the text must be the rendering of that array under the same context; its elements, the entries,
+		// are rendered under the element formats, and what they hold recursively
+		es := make([]Val, len(v.Es))
+		for i := range v.Es {
+			es[i] = vArr(v.Ks[i], v.Es[i])
+		}
+		checkEntries(vArr(es...), pv.(*types.Hash), ctx, o, depth, fs)
+		return
 	}
 	// children
 	cf := f.ContainerFormats()
